@@ -117,6 +117,8 @@ type DB struct {
 	commitSeq int64
 
 	advisory map[int64]*advisoryLock
+	// deadlocks counts the deadlock errors raised so far
+	deadlocks int
 	waits    map[int64]int64 // top xid -> top xid it waits for
 
 	clock time.Time
@@ -617,4 +619,11 @@ func (db *DB) XactActive(xid int64) bool {
 	defer db.mu.Unlock()
 	x, ok := db.xacts[xid]
 	return ok && x.top.status == txInProgress
+}
+
+// Deadlocks returns how many deadlock errors (40P01) the stand-in has raised so far.
+func (db *DB) Deadlocks() int {
+	db.mu.Lock()
+	defer db.mu.Unlock()
+	return db.deadlocks
 }
